@@ -409,7 +409,7 @@ Qed.
 
 Lemma sub64_small x y : y <= x -> x < 2 ^ 64 -> sub64 x y = x - y.
 Proof.
-  intros Hy Hx. unfold sub64, wrap, W.
+  intros Hy Hx. unfold sub64. rewrite wrap_mod, W_pow.
   replace (x + 2 ^ 64 - y) with ((x - y) + 1 * 2 ^ 64) by lia.
   rewrite N.mod_add by discriminate. apply N.mod_small. lia.
 Qed.
